@@ -131,7 +131,7 @@ def linen_vars_to_nnx_attrs(variables: tp.Mapping[str, Any]) -> dict[str, Any]:
   """Convert a dict of Linen-style variables to NNX variables."""
   nnx_vars = jax.tree_util.tree_map_with_path(
     lambda kp, x: to_nnx_var(get_col_name(kp), x),
-    variables, is_leaf=lambda x: isinstance(x, meta.AxisMetadata))
+    variables, is_leaf=lambda x: isinstance(x, meta.AxisMetadata) or not isinstance(x, tp.Mapping))
   nnx_attrs: dict[str, Any] = defaultdict(dict)
   for _, col_tree in nnx_vars.items():
     assert isinstance(col_tree, dict)
